@@ -92,6 +92,7 @@ def c07_jobs(ctx, focus=()):
     pick = [n for n in ("VirusColonySearchOptimization", "ParticleSwarmOptimization", "GreyWolfOptimization") if n in names] + r.sample(names, 3 if ctx.quick else 20)
     for nm in pick:
         tasks = [{"vars": [("permstr", 7)], "obj": "decoded-tour", "minmax": "min", "seed": r.choice([0, 42, 7])},
+                 {"vars": [("permcase", 6)], "obj": "decoded-tour", "minmax": "min", "seed": r.choice([0, 42, 7])},      # labels that differ only by case (a1 / A1 ...)
                  search.cont_task(obj="sphere", seed=r.choice([0, 42, 7]))]
         for t in tasks:
             cfg = {"max_cycles": 3, "fitness_error": None}
@@ -131,6 +132,13 @@ def c08_jobs(ctx, focus=()):
             cfg = {"max_cycles": r.choice([10, 60, 200]), "fitness_error": None}
             prev = [{"task": dict(last)} for _ in range(r.choice([1, 2]))]
             jobs.append(({"opt": nm, "cfg": cfg, "task": last, "sequence": prev}, {"opt": nm, "cfg": cfg, "task": last}))
+        # ... and earlier runs that END EARLY, anywhere inside the budget (a generous fitness_error on an easy task, early stopping): schedules consumed part-way
+        for _ in range(16):
+            easy = search.cont_task(obj="sphere", seed=r.randint(0, 10**6), dim=2, lo=-1.0, hi=1.0)
+            last = search.cont_task(obj=r.choice(["rastrigin", "sphere"]), seed=r.randint(0, 10**6), dim=3)
+            cfg = {"max_cycles": r.choice([12, 20, 30, 50]), "fitness_error": r.choice([0.3, 0.1, 0.03, 0.01, 0.003, 0.001]),
+                   "early_stopping": r.choice([None, None, {"patience": 2, "min_delta": 0.05}])}
+            jobs.append(({"opt": nm, "cfg": cfg, "task": last, "sequence": [{"task": easy}]}, {"opt": nm, "cfg": cfg, "task": last}))
     for nm in search.all_names():
         for _ in range((1 if ctx.quick else 10) * ctx.boost):
             n_prev = r.choice([1, 1, 2])
@@ -206,6 +214,9 @@ def c09_jobs(ctx, focus=()):
             j = {"opt": nm, "cfg": {"max_cycles": 2, "fitness_error": None}, "task": t}
             if bad.get("mode"): j["mode"] = bad["mode"]
             jobs.append(j)
+        # an objective that hands task-owned data (rows of a float64 array) to the library's own distance helper, as the README's TSP example does
+        if not ctx.quick or r.random() < 0.25 * ctx.boost:
+            jobs.append({"opt": nm, "cfg": {"max_cycles": 2, "fitness_error": None}, "task": dict(search.cont_task(obj="helperdist", seed=r.randint(0, 10**6), dim=3), coords=4)})
         # integer-coded tasks made of ONE multi-variable (the search-space description must not be shared with, and edited by, the run)
         for vs in ([("binary", 4)], [("discmulti", [3, 4, 2])]) if (not ctx.quick or r.random() < 0.5) else ([r.choice([("binary", 4), ("perm", 5)])],):
             jobs.append({"opt": nm, "cfg": {"max_cycles": 3, "fitness_error": None}, "task": {"vars": list(vs), "obj": "abs", "minmax": "min", "seed": r.randint(0, 10**6)}})
